@@ -43,6 +43,9 @@ def seeded():
     for m in sorted(glob.glob(f"{ROOT}/seeded/*/meta.json")):
         d = json.load(open(m))
         name = os.path.basename(os.path.dirname(m))
+        if d.get("kept") is False:
+            rows.append(f"| `{name}` | {d['property']} | {cell(d.get('summary', ''), 240)} | — | *obsolete*: {cell(d.get('obsolete', ''), 200)} |")
+            continue
         det = ", ".join(d.get("detected_by") or []) or "**none**"
         rows.append(f"| `{name}` | {d['property']} | {cell(d.get('summary', ''), 240)} | {cell(d.get('needs', ''), 200)} | {det} |")
     return "\n".join(rows)
